@@ -306,7 +306,7 @@ func ruleCmpSign(c *Ctx, rule string, fns []*ssa.Function) {
 }
 
 func runC05(c *Ctx) {
-	c.Explanation = "Decides the two structural faults the property's own rationale names — a wrong parent/child index and a missing sift direction — plus heapify coverage and stoppable Each. R-HEAP-INDEX extracts, from the go/ssa form, the parent form P(j)=⌊(j+c)/d⌋ of sift-up and the child forms a·i+b of sift-down and requires P(child_b(i)) = i for every child (arithmetic on the extracted constants). R-HEAP-BIDIR requires that a slot overwritten at an arbitrary offset is re-ordered in both directions on every path. R-HEAPIFY-COVER requires every bulk re-heapify loop to start at or above the last internal node and run down to 0. (R-CMP-SIGN) comparison results are tested by sign only; (R-REORDER-INSTALLS) Reorder installs its argument on every path; (R-SORT-INPLACE) nothing Sort reaches replaces the buffer by a fresh allocation. Does NOT decide that Front/Pop is minimal for every history, multiset conservation, or Sort's result."
+	c.Explanation = "Decides the two structural faults the property's own rationale names — a wrong parent/child index and a missing sift direction — plus heapify coverage and stoppable Each. R-HEAP-INDEX extracts, from the go/ssa form, the parent form P(j)=⌊(j+c)/d⌋ of sift-up and the child forms a·i+b of sift-down and requires P(child_b(i)) = i for every child (arithmetic on the extracted constants). R-HEAP-BIDIR requires that a slot overwritten at an arbitrary offset is re-ordered in both directions on every path. R-HEAPIFY-COVER requires every bulk re-heapify loop to start at or above the last internal node and run down to 0. (R-CMP-SIGN) comparison results are tested by sign only; (R-REORDER-INSTALLS) Reorder installs its argument on every path; (R-SORT-INPLACE) nothing Sort reaches replaces the buffer by a fresh allocation. (R-POP-CONSERVES) the removal helper writes the tail element into slot i before cutting the tail slot off; (R-LEN-EFFECT) a symbolic length-effect analysis: every path of Add/Pop/Remove/Clear/Set that rewrites the buffer leaves its length at L0+1 / L0−1 / 0 / len(vs), other methods leave it unchanged; (R-SORT-SHORTCUT) a sortedness shortcut in Sort uses the caller's comparison. Does NOT decide that Front/Pop is minimal for every history, multiset conservation, or Sort's result."
 	c.rule("R-HEAP-INDEX", 3, "parent index of sift-up and child indices of sift-down are mutually inverse; children form one contiguous block; root is nobody's child; sift-up stops exactly at the root")
 	c.rule("R-HEAP-BIDIR", 1, "a slot overwritten at an arbitrary offset is followed by sift-down and (unless sift-down moved it, or the slot was cut off) by sift-up on all paths")
 	c.rule("R-HEAPIFY-COVER", 2, "each bulk heapify loop starts at or above the last internal node, steps -1 down to 0 inclusive, and sifts down the loop variable")
@@ -966,7 +966,7 @@ func runC05(c *Ctx) {
 // ---------------------------------------------------------------------------
 
 func runC06(c *Ctx) {
-	c.Explanation = "R-MOVE-NOTIFY: every write of a heap slot in a heapq.Queue method (element store, append, copy) is followed on every path to exit by a position report q.move(q.data[k], k) for that very slot, loaded after the write — or the slot is cut off by a truncation before exit. R-ADD-RETURNS: Add returns sift-up's result on the append position. R-POS-WRITERS: the LRU store's key→offset index is written only from the update callback (with the callback's own arguments) and from Store (with Add's result), deleted only together with the heap removal, and the callback is installed before the store escapes. Does NOT decide that the offsets are right for every history (that follows from these rules plus heap-array semantics)."
+	c.Explanation = "R-MOVE-NOTIFY: every write of a heap slot in a heapq.Queue method (element store, append, copy) is followed on every path to exit by a position report q.move(q.data[k], k) for that very slot, loaded after the write — or the slot is cut off by a truncation before exit. R-ADD-RETURNS: Add returns sift-up's result on the append position. R-POS-WRITERS: the LRU store's key→offset index is written only from the update callback (with the callback's own arguments) and from Store (with Add's result), deleted only together with the heap removal, and the callback is installed before the store escapes. After a bulk write no return is reachable without entering the reporting loop. Does NOT decide that the offsets are right for every history (that follows from these rules plus heap-array semantics)."
 	c.rule("R-MOVE-NOTIFY", 3, "every slot write is followed by notify(k) on all paths, or the slot is truncated away")
 	c.rule("R-ADD-RETURNS", 1, "Add returns sift-up's result on the append index")
 	c.rule("R-POS-WRITERS", 4, "lruStore.present has exactly the writers {update callback, Store} and deleters {Remove, Evict}, each correctly paired; access is installed once with a non-nil Update callback")
